@@ -77,6 +77,18 @@ def run_case(c, d):
             same = (p is None and q is None) or (p is not None and q is not None and os.path.realpath(p) == os.path.realpath(q))
             if not same:
                 out['spelling'][name] = [how, None if p is None else os.path.relpath(p, d), None if q is None else os.path.relpath(q, d)]
+        # the entry '' that `python -c`, the interactive interpreter and IPython put first: the current directory
+        for ri in range(len(roots)):
+            here = os.getcwd()
+            os.chdir(roots[ri])
+            try:
+                q = us.modname_to_modpath(name, sys_path=[('' if j == ri else r) for j, r in enumerate(roots)])
+                q = None if q is None else os.path.realpath(q)
+            finally:
+                os.chdir(here)
+            same = (p is None and q is None) or (p is not None and q is not None and os.path.realpath(p) == q)
+            if not same and name not in out['spelling']:
+                out['spelling'][name] = ['empty-string entry for root %d (the current directory)' % ri, None if p is None else os.path.relpath(p, d), None if q is None else os.path.relpath(q, d)]
         if p is None:
             out['lookup'][name] = None
         else:
